@@ -8,7 +8,7 @@ namespace Petl.Snapshot
 open Petl.Gen
 
 def expectedC02 : List (String × String) := [
-  ("file:comparison.py", "17971f67ee946013"),
+  ("file:comparison.py", "c46d05a1308c92ce"),
   ("file:config.py", "142bde514c82c29d"),
   ("file:io/base.py", "e2315106bbcaaf95"),
   ("file:io/csv.py", "143722bf0e79c91e"),
@@ -20,7 +20,7 @@ def expectedC02 : List (String × String) := [
   ("file:io/text.py", "b72fac07748bae66"),
   ("file:transform/basics.py", "ef1ded632cafe787"),
   ("file:transform/conversions.py", "c717da0d8eb0ba94"),
-  ("file:transform/dedup.py", "00c85272c501507a"),
+  ("file:transform/dedup.py", "bd5f47cbc6d0c73d"),
   ("file:transform/fills.py", "dd9addc453365c1c"),
   ("file:transform/hashjoins.py", "b948265980fadaea"),
   ("file:transform/headers.py", "b170f0cc5a1c0354"),
